@@ -124,6 +124,20 @@ def facts(repo):
         raise ExtractError(f"{rel}: projected_mem vs allowed_mem comparison not found")
     put("admitRefuseOp", "String", lean_str(op), rel + ":_find_ops_exceeding_memory")
 
+    # FinalizedPlan.execute: first statement is self.validate(); validate raises iff _ops_exceeding_memory
+    fn = _func(t, "execute", rel)
+    body = [st for st in fn.body if not (isinstance(st, ast.Expr) and isinstance(st.value, ast.Constant))]
+    first = _src(body[0]) if body else ""
+    put("executeValidatesFirst", "Bool", "true" if first == "self.validate()" else "false", rel + ":FinalizedPlan.execute")
+    fn = _func(t, "validate", rel)
+    body = [st for st in fn.body if not (isinstance(st, ast.Expr) and isinstance(st.value, ast.Constant))]
+    okv = (len(body) == 1 and isinstance(body[0], ast.If) and _src(body[0].test) == "self._ops_exceeding_memory"
+           and any(isinstance(x, ast.Raise) for x in body[0].body) and not body[0].orelse)
+    put("validateRaisesIffExceeding", "Bool", "true" if okv else "false", rel + ":FinalizedPlan.validate")
+    fn = _func(t, "_finalize", rel)
+    put("finalizeRecordsExceeding", "Bool", "true" if "ops_exceeding_memory = self._find_ops_exceeding_memory(dag)" in _src(fn)
+        and "ops_exceeding_memory)" in _src(fn) else "false", rel + ":Plan._finalize")
+
     fn = _func(t, "already_computed", rel)
     src = _src(fn)
     put("alreadyComputedTest", "String", lean_str("ndim==0|nchunks_initialized!=nchunks" if
